@@ -160,6 +160,12 @@ func init() {
 		"internal/bytealg.Equal": func(m *Machine, _ *frame, _ *ssa.Function, a []value) value {
 			return m.bytesEqual(a[0].([]value), a[1].([]value))
 		},
+		"internal/bytealg.IndexString": func(m *Machine, _ *frame, _ *ssa.Function, a []value) value {
+			return m.indexSub(m.strBytes(a[0]), m.strBytes(a[1]))
+		},
+		"internal/bytealg.Index": func(m *Machine, _ *frame, _ *ssa.Function, a []value) value {
+			return m.indexSub(a[0].([]value), a[1].([]value))
+		},
 		"internal/bytealg.Count": func(m *Machine, _ *frame, _ *ssa.Function, a []value) value {
 			return m.countByte(a[0].([]value), a[1].(*Term))
 		},
@@ -342,6 +348,17 @@ func (m *Machine) indexByte(b []value, c *Term) value {
 	tt := m.tt
 	for i, x := range b {
 		if m.path.Branch(tt.Eq(x.(*Term), c), "IndexByte") {
+			return tt.Const(64, uint64(i))
+		}
+	}
+	return tt.Const(64, ^uint64(0))
+}
+
+// indexSub: first index of sub in s (-1 if absent), branching on each candidate position.
+func (m *Machine) indexSub(s, sub []value) value {
+	tt := m.tt
+	for i := 0; i+len(sub) <= len(s); i++ {
+		if m.path.Branch(m.bytesEqual(s[i:i+len(sub)], sub).(*Term), "IndexString") {
 			return tt.Const(64, uint64(i))
 		}
 	}
